@@ -4,3 +4,4 @@ import Autog.FactsCheck.Ids
 import Autog.FactsCheck.Topo
 import Autog.FactsCheck.Totality
 import Autog.FactsCheck.Numbers
+import Autog.FactsCheck.Geom
